@@ -59,6 +59,13 @@ func c04Env(scenario string) *rtEnv {
 		if scenario == "lock" && !isP0 && !isP1 {
 			return e
 		}
+		if (scenario == "lock2" || scenario == "lock3") && !isP0 && !isP1 {
+			vs2 := vs.Copy()
+			vs2.IncrementProposerPriority(2)
+			if string(vs2.GetProposer().Address) != string(node) {
+				return e
+			}
+		}
 	}
 	panic("c04: no suitable key seed")
 }
@@ -147,6 +154,13 @@ func (d *c04Driver) deliver(m Message, from int) bool {
 	if d.spent() {
 		return false
 	}
+	if vm, ok := m.(*VoteMessage); ok && vm.Vote.Type == tmproto.PrevoteType {
+		// the timeline of C02's restart part: what the node was handed, in order with what it signed
+		d.env.smtx.Lock()
+		d.env.Signed = append(d.env.Signed, rtSigned{Inc: d.n.inc, Kind: "recv", H: vm.Vote.Height, R: vm.Vote.Round, Step: 2,
+			Block: fmt.Sprintf("%X", vm.Vote.BlockID.Hash), Sig: fmt.Sprint(from)})
+		d.env.smtx.Unlock()
+	}
 	mi := msgInfo{Msg: m, PeerID: d.peer(from)}
 	if !d.n.step("peer", &mi) {
 		return false
@@ -181,6 +195,11 @@ func (d *c04Driver) proposal(round int32, name string, pol int32) bool {
 
 // votes delivers votes of the first n stub validators (keys 1..n) for the named block ("" = nil).
 func (d *c04Driver) votes(typ tmproto.SignedMsgType, round int32, name string, n int) bool {
+	return d.votesFrom(typ, round, name, 1, n)
+}
+
+// votesFrom: the same for the stub validators with keys from..from+n-1.
+func (d *c04Driver) votesFrom(typ tmproto.SignedMsgType, round int32, name string, from, n int) bool {
 	var bid types.BlockID
 	if name == "own" {
 		// whatever the node itself proposed in this round
@@ -192,7 +211,7 @@ func (d *c04Driver) votes(typ tmproto.SignedMsgType, round int32, name string, n
 		bid = d.block(name)
 	}
 	vs := d.vals()
-	for k := 1; k <= n; k++ {
+	for k := from; k < from+n; k++ {
 		addr := d.env.keys[k].PubKey().Address()
 		idx, _ := vs.GetByAddress(addr)
 		v := &types.Vote{Type: typ, Height: 1, Round: round, BlockID: bid, Timestamp: dsGenesisTime.Add(time.Hour), ValidatorAddress: addr, ValidatorIndex: idx}
@@ -232,6 +251,40 @@ func (d *c04Driver) script(name string) {
 			func() bool { return d.votes(pre, 0, "own", 2) },
 			func() bool { return d.votes(com, 0, "own", 2) },
 			d.timeout,
+		},
+		// lock A in round 0, no quorum for anything in round 1, a fresh proposal C in round 2 (the node must still prevote A),
+		// then a polka and a commit for C
+		"lock2": {
+			d.timeout,
+			func() bool { return d.proposal(0, "A", -1) },
+			func() bool { return d.votes(pre, 0, "A", 2) },
+			func() bool { return d.votes(com, 0, "", 2) },
+			d.timeout, // precommit-wait -> round 1
+			func() bool { return d.proposal(1, "B", -1) },
+			func() bool { return d.votes(pre, 1, "", 2) },
+			d.timeout, // prevote-wait -> precommit nil
+			func() bool { return d.votes(com, 1, "", 2) },
+			d.timeout, // precommit-wait -> round 2
+			func() bool { return d.proposal(2, "C", -1) },
+			func() bool { return d.votes(pre, 2, "C", 3) },
+			func() bool { return d.votes(com, 2, "C", 3) },
+			d.timeout,
+		},
+		// nothing in round 0 (left through the precommit-wait timeout), lock B in round 1, a fresh proposal C in round 2: the node must prevote B
+		"lock3": {
+			d.timeout,
+			d.timeout, // propose timeout -> prevote nil
+			func() bool { return d.votesFrom(pre, 0, "", 1, 2) },
+			func() bool { return d.votesFrom(com, 0, "", 1, 1) },
+			func() bool { return d.votesFrom(com, 0, "A", 2, 1) },
+			d.timeout, // precommit-wait -> round 1
+			func() bool { return d.proposal(1, "B", -1) },
+			func() bool { return d.votes(pre, 1, "B", 2) },
+			func() bool { return d.votesFrom(com, 1, "", 1, 2) },
+			d.timeout, // precommit-wait -> round 2
+			func() bool { return d.proposal(2, "C", -1) },
+			func() bool { return d.votes(pre, 2, "", 2) },
+			d.timeout, // prevote-wait -> precommit nil
 		},
 		// after a restart: the proposer equivocates — the other block, with a polka and precommits for it
 		"other": {
@@ -274,6 +327,9 @@ func c04Judge(signed []rtSigned) (key, what string) {
 	}
 	first := map[slot]rtSigned{}
 	for _, s := range signed {
+		if s.Kind == "recv" {
+			continue
+		}
 		sl := slot{s.H, s.R, s.Step}
 		f, ok := first[sl]
 		if !ok {
@@ -298,6 +354,7 @@ type c04Result struct {
 	signedN   int
 	inconcl   string
 	tails     map[string][2]int
+	timeline  []rtSigned // signatures released and prevotes handed to the node, in order, across incarnations
 }
 
 func c04Run(c c04Case) (res c04Result) {
@@ -359,7 +416,12 @@ func c04Run(c c04Case) (res c04Result) {
 	env.smtx.Lock()
 	signed := append([]rtSigned{}, env.Signed...)
 	env.smtx.Unlock()
-	res.signedN = len(signed)
+	res.timeline = signed
+	for _, x := range signed {
+		if x.Kind != "recv" {
+			res.signedN++
+		}
+	}
 	res.key, res.what = c04Judge(signed)
 	return
 }
